@@ -219,6 +219,10 @@ func (env *Env) evalIdent(name string) TV {
 	case "MaxInt63":
 		return TV{V: vInt(intLit(new(big.Int).Sub(two63, bigOne))), T: untypedInt}
 	}
+	if gt, ok := ex.ctr.Ghosts[name]; ok {
+		t := ex.resolveType(gt)
+		return TV{V: ex.ghostVarLoad(env.st, name, t), T: t}
+	}
 	obj := ex.prog.Pkg.Types.Scope().Lookup(name)
 	if obj == nil {
 		obj = types.Universe.Lookup(name)
@@ -1033,6 +1037,14 @@ func (env *Env) modLocs(e Expr) []ModLoc {
 			return []ModLoc{{Key: "B.*", Whole: true}}
 		}
 	case *EIdent:
+		if gt, ok := ex.ctr.Ghosts[e.Name]; ok {
+			var out []ModLoc
+			for _, gl := range ex.ghostVarLocs(ex.resolveType(gt), e.Name) {
+				ex.get(env.st, gl.Key, gl.Sort)
+				out = append(out, ModLoc{Key: gl.Key, Sort: gl.Sort})
+			}
+			return out
+		}
 		// a global variable
 		obj := ex.prog.Pkg.Types.Scope().Lookup(e.Name)
 		if v, ok := obj.(*types.Var); ok {
@@ -1127,4 +1139,36 @@ func (env *Env) addrOf(e Expr) (*Ptr, types.Type) {
 	}
 	efail("not an addressable location")
 	return nil, nil
+}
+
+// global ghost variables live under the keys GG.<name>.<leaf>; map-typed ones are mathematical maps.
+func (ex *Exec) ghostVarLocs(t types.Type, name string) []Loc {
+	var out []Loc
+	if mt, ok := t.Underlying().(*types.Map); ok {
+		for _, l := range leavesOf(mt.Elem()) {
+			out = append(out, Loc{Key: "GG." + name + "." + l.Path, Sort: SArr(SInt, l.Sort), Leaf: l})
+		}
+		return out
+	}
+	for _, l := range leavesOf(t) {
+		out = append(out, Loc{Key: "GG." + name + "." + l.Path, Sort: l.Sort, Leaf: l})
+	}
+	return out
+}
+
+func (ex *Exec) ghostVarLoad(st *State, name string, t types.Type) Val {
+	locs := ex.ghostVarLocs(t, name)
+	if mt, ok := t.Underlying().(*types.Map); ok {
+		v := Val{K: VMMap, ElemT: mt.Elem()}
+		for _, l := range locs {
+			v.Fs = append(v.Fs, vInt(ex.get(st, l.Key, l.Sort)))
+		}
+		return v
+	}
+	ts := make([]string, len(locs))
+	for i, l := range locs {
+		ts[i] = ex.get(st, l.Key, l.Sort)
+	}
+	v, _ := unflatten(t, ts)
+	return v
 }
